@@ -97,7 +97,7 @@ PROPERTIES = {
         "explanation": "R-ALGEBRA (arg rows), R-ORDER, R-STABLE, R-KEYS",
     },
     "C07": {
-        "rules": [M.rule_sentinel_ravel, PR.rule_pairs_groupers, CD.rule_codewidth, CD.rule_identitycodes, CD.rule_labelvalue],
+        "rules": [M.rule_sentinel_ravel, PR.rule_pairs_groupers, CD.rule_codewidth, CD.rule_identitycodes, CD.rule_labelvalue, CD.rule_closedside],
         "thorough": [selftest],
         "technique": "CFG must-pass-through of a masked sentinel restore",
         "level_text": "Static, all-paths: after the per-grouper codes are combined arithmetically, every path to return restores the "
